@@ -29,6 +29,7 @@ type Obligation struct {
 	Desc      string
 	Pos       string
 	Instances []*OblInstance
+	PhaseB    bool
 	// results
 	Status  string // proved | failed
 	Backend string
@@ -60,7 +61,7 @@ func (e *Engine) oblige(s *State, kind, name, desc string, pos token.Pos, goal *
 	}
 	o := e.obls[name]
 	if o == nil {
-		o = &Obligation{Name: name, Kind: kind, Desc: desc, Func: e.curEntry.String()}
+		o = &Obligation{Name: name, Kind: kind, Desc: desc, Func: e.curEntry.String(), PhaseB: e.curPhaseB}
 		if pos.IsValid() {
 			p := e.prog.Fset.Position(pos)
 			o.Pos = fmt.Sprintf("%s:%d", p.Filename, p.Line)
@@ -456,6 +457,7 @@ func (e *Engine) enterBlock(s *State, b *ssa.BasicBlock) bool {
 		if _, seen := f.loops[b]; seen && la.isBackEdge(from, b) {
 			// back edge: check the invariant, end of path
 			e.checkLoopInvariant(s, f, lp, from, false)
+			e.detLoopCarried(s, f, lp, from)
 			return false
 		}
 		// first entry: check invariant on entry, havoc, assume
@@ -580,6 +582,7 @@ func (e *Engine) execInstr(s *State, in ssa.Instruction) {
 			// varargs / literal arrays are built by element stores too
 			e.safe(s, x, "nilelem", Ne(val[0], Zero))
 		}
+		e.detStore(s, x, pl, val)
 		e.store(s, pl, t, val)
 	case *ssa.BinOp:
 		f.regs[x] = e.binop(s, x)
@@ -632,6 +635,7 @@ func (e *Engine) execInstr(s *State, in ssa.Instruction) {
 			e.safe(s, x, "nilelem", Ne(v[0], Zero))
 		}
 		e.noteWrite(s, x, Place{Prefix: "map(" + e.typeKey(mt) + ")", Addr: []*Term{m}})
+		e.detMapUpdate(s, x, m, k, v)
 		e.mapStore(s, mt, m, k, v)
 	case *ssa.Lookup:
 		e.lookup(s, x)
@@ -1157,7 +1161,31 @@ func (e *Engine) next(s *State, x *ssa.Next) {
 		return
 	}
 	mt := rng.X.Type().Underlying().(*types.Map)
+	pcAt := len(s.pc)
+	symAt := e.symN - 1 // the ok symbol just created belongs to the iteration
 	k := e.freshValue(s, mt.Key(), e.freshName("hv.next.key"))
+	// register the map-range iteration (DET obligations)
+	la := e.loops(f.fn)
+	for _, lp := range la.headers {
+		if lp.body[x.Block()] {
+			inner := true
+			for _, lp2 := range la.headers {
+				if lp2 != lp && lp2.body[x.Block()] && lp.body[lp2.header] && len(lp2.body) < len(lp.body) {
+					inner = false
+				}
+			}
+			if inner {
+				var keep []*mapLoopInfo
+				for _, m := range f.mapLoops {
+					if m.lp != lp {
+						keep = append(keep, m)
+					}
+				}
+				syms := append([]*Term{okT}, k...)
+				f.mapLoops = append(keep, &mapLoopInfo{lp: lp, keySyms: syms, nAlloc: *s.nalloc, pcAt: pcAt, symAt: symAt})
+			}
+		}
+	}
 	tk := e.typeKey(mt)
 	addr := e.mapKeys(mt, it[0], k)
 	s.assume(Implies(okT, And(Ne(it[0], Zero), s.sel("mapdom("+tk+")", SBool, addr))))
